@@ -82,8 +82,40 @@ func checkStable(cfg *hx.Config) {
 
 // ---------- Coq printers ----------
 
+// Every distinct (grapheme, width) gets a name defined once per case file (see
+// dictImports); numerals are expensive for Coq to elaborate, identifiers are not.
+var dictNames = map[string]string{}
+var dictDefs []string
+
 func coqCl(c vaxis.Character) string {
-	return hx.Tuple(hx.Runes(c.Grapheme), hx.Z(int64(c.Width)))
+	key := fmt.Sprintf("%s|%d", c.Grapheme, c.Width)
+	if n, ok := dictNames[key]; ok {
+		return n
+	}
+	n := fmt.Sprintf("k%d", len(dictDefs))
+	dictNames[key] = n
+	dictDefs = append(dictDefs, fmt.Sprintf("Definition %s : cluster := %s", n, hx.Tuple(hx.Runes(c.Grapheme), hx.Z(int64(c.Width)))))
+	return n
+}
+
+// a text, written as the concatenation of the clusters it segments into
+func coqText(s string) string {
+	if s == "" {
+		return "[]"
+	}
+	if strings.Contains(s, "\t") { // vaxis.Characters expands tabs
+		return hx.Runes(s)
+	}
+	return "(cl_text " + coqCls(chars(s)) + ")"
+}
+
+// hx prints "From Vx Require Import base.Prelude <Imports>." at the top of every case
+// file; the dictionary definitions ride along behind the import.
+func dictImports() string {
+	if len(dictDefs) == 0 {
+		return "model.Editors"
+	}
+	return "model.Editors.\nLocal Open Scope Z_scope.\n" + strings.Join(dictDefs, ".\n")
 }
 
 func coqCls(cs []vaxis.Character) string {
@@ -152,7 +184,7 @@ func (o tfOp) String() string {
 func (o tfOp) coq() string {
 	switch o.kind {
 	case "text":
-		return "(TText " + hx.Runes(o.s) + ")"
+		return "(TText " + coqText(o.s) + ")"
 	case "home":
 		return "(TKey TkHome)"
 	case "end":
@@ -172,7 +204,7 @@ func (o tfOp) coq() string {
 	case "ignored":
 		return "TIgnored"
 	case "insertapi":
-		return "(TInsertApi " + hx.Runes(o.s) + ")"
+		return "(TInsertApi " + coqText(o.s) + ")"
 	case "cursortoapi":
 		return "(TCursorToApi " + hx.ZU(uint64(o.i)) + ")"
 	case "delrightapi":
@@ -184,7 +216,7 @@ func (o tfOp) coq() string {
 	case "resetapi":
 		return "TResetApi"
 	case "setvalue":
-		return "(TSetValue " + hx.Runes(o.s) + ")"
+		return "(TSetValue " + coqText(o.s) + ")"
 	}
 	panic("tfOp " + o.kind)
 }
@@ -266,13 +298,13 @@ func (g *gen) runTF(s *hx.Stream, ops []tfOp, W int, stable bool, tags ...string
 	nontrivial := false
 	run := func() {
 		tf := textfield.New()
-		var log []string
+		var log [][2]string
 		tf.OnChange = func(v string) (vxfw.Command, error) {
-			log = append(log, "(CbChange "+hx.Runes(v)+")")
+			log = append(log, [2]string{"CbChange", v})
 			return nil, nil
 		}
 		tf.OnSubmit = func(v string) (vxfw.Command, error) {
-			log = append(log, "(CbSubmit "+hx.Runes(v)+")")
+			log = append(log, [2]string{"CbSubmit", v})
 			return nil, nil
 		}
 		for _, o := range ops {
@@ -299,7 +331,15 @@ func (g *gen) runTF(s *hx.Stream, ops []tfOp, W int, stable bool, tags ...string
 					nontrivial = true
 				}
 			}
-			obs := hx.Tuple(coqCls(chars(tf.Value)), hx.ZU(uint64(cur)), hx.ZU(uint64(n)), hx.List(log), hx.Z(col))
+			logc := make([]string, len(log))
+			for i, l := range log {
+				if l[1] == tf.Value {
+					logc[i] = "(" + l[0] + " (cl_text v))"
+				} else {
+					logc[i] = "(" + l[0] + " " + coqText(l[1]) + ")"
+				}
+			}
+			obs := "(let v := " + coqCls(chars(tf.Value)) + " in " + hx.Tuple("v", hx.ZU(uint64(cur)), hx.ZU(uint64(n)), hx.List(logc), hx.Z(col)) + ")"
 			steps = append(steps, hx.Tuple(o.coq(), coqCls(chars(o.s)), obs))
 			jsOps = append(jsOps, o.String())
 			jsObs = append(jsObs, fmt.Sprintf("%q cur=%d n=%d cb=%d col=%d", tf.Value, cur, n, len(log), col))
@@ -308,9 +348,11 @@ func (g *gen) runTF(s *hx.Stream, ops []tfOp, W int, stable bool, tags ...string
 	js := map[string]interface{}{"widget": "textfield", "draw_width": W, "stable": stable, "ops": jsOps}
 	if p, msg := hx.Catch(run); p {
 		js["panic"] = msg
+		js["ops"] = jsOps
 		g.direct = append(g.direct, hx.DirectViolation{Class: "textfield-panic", Case: js, What: "TextField panicked: " + msg})
 		return
 	}
+	js["ops"] = jsOps
 	js["observed"] = jsObs
 	s.Add(hx.Tuple(hx.Z(int64(W)), hx.Bool(stable), hx.List(steps)), js, nontrivial, tags...)
 }
@@ -470,21 +512,21 @@ func (o tiOp) coq() string {
 	}
 	switch o.kind {
 	case "text":
-		return "(OEv (EDefault false " + hx.Runes(o.s) + "))"
+		return "(OEv (EDefault false " + coqText(o.s) + "))"
 	case "modtext":
-		return "(OEv (EDefault true " + hx.Runes(o.s) + "))"
+		return "(OEv (EDefault true " + coqText(o.s) + "))"
 	case "notext":
 		return "(OEv (EDefault false []))"
 	case "release":
 		return "(OEv ERelease)"
 	case "pastechunk":
-		return "(OEv (EPasteChunk " + hx.Runes(o.s) + "))"
+		return "(OEv (EPasteChunk " + coqText(o.s) + "))"
 	case "pasteend":
 		return "(OEv EPasteEnd)"
 	case "other":
 		return "(OEv EOther)"
 	case "setcontent":
-		return "(OSetContent " + hx.Runes(o.s) + ")"
+		return "(OSetContent " + coqText(o.s) + ")"
 	case "draw":
 		return "(ODraw " + hx.Z(int64(o.w)) + ")"
 	}
@@ -587,7 +629,7 @@ func (g *gen) runTI(s *hx.Stream, prompt string, ops []tiOp, stable bool, tags .
 		case "setcontent":
 			cs := chars(o.s)
 			note(cs)
-			tbl = hx.List([]string{hx.Tuple(hx.Runes(o.s), coqCls(cs))})
+			tbl = hx.List([]string{hx.Tuple(coqText(o.s), coqCls(cs))})
 			if p, _ := hx.Catch(func() { m.SetContent(o.s) }); p {
 				outcome = 1
 			}
@@ -613,13 +655,13 @@ func (g *gen) runTI(s *hx.Stream, prompt string, ops []tiOp, stable bool, tags .
 			case "text":
 				cs := chars(o.s)
 				note(cs)
-				tbl = hx.List([]string{hx.Tuple(hx.Runes(o.s), coqCls(cs))})
+				tbl = hx.List([]string{hx.Tuple(coqText(o.s), coqCls(cs))})
 			case "pastechunk":
 				paste += o.s
 			case "pasteend":
 				cs := chars(paste)
 				note(cs)
-				tbl = hx.List([]string{hx.Tuple(hx.Runes(paste), coqCls(cs))})
+				tbl = hx.List([]string{hx.Tuple(coqText(paste), coqCls(cs))})
 				paste = ""
 			}
 			ev := o.event()
@@ -847,6 +889,8 @@ func main() {
 	g := &gen{cfg: cfg, vx: vx}
 	tf := g.tfStream()
 	ti := g.tiStream()
+	tf.Imports = dictImports()
+	ti.Imports = dictImports()
 	extra := map[string]interface{}{"draw_hangs": g.hangs, "narrow_draws_skipped_after_two_hangs": g.skippedDraws,
 		"stable_alphabet": stableAlpha, "unstable_extra": unstableExtra}
 	cfg.Write("C17", "operation histories on a fresh TextField / textinput.Model, driven with real vaxis.Key, paste and other events and the exported methods; "+
